@@ -248,6 +248,14 @@ def bind_random(module, src):
     import secrets as _secrets
     facade = RandomFacade(src)
     saved = {}
+    class_saved = []
+    # sources kept on the classes of the module (``_rng = random.SystemRandom()`` as a class attribute)
+    for cname, cls in list(vars(module).items()):
+        if isinstance(cls, type) and getattr(cls, "__module__", None) == module.__name__:
+            for name, val in list(vars(cls).items()):
+                if isinstance(val, _random.Random) or val is _random or val is _secrets:
+                    class_saved.append((cls, name, val))
+                    setattr(cls, name, facade)
     for name, val in list(vars(module).items()):
         new = None
         if val is _random or val is _secrets:
@@ -275,6 +283,8 @@ def bind_random(module, src):
     def restore():
         for name, val in saved.items():
             setattr(module, name, val)
+        for cls, name, val in class_saved:
+            setattr(cls, name, val)
         if os_saved is not None:
             o, v, had = os_saved
             if had:
